@@ -208,6 +208,14 @@ def run_unit(unit, st, tier):
                     if kk not in seen:
                         seen[kk] = (out, r2, hist + [[op, k]])
                         nxt.append(kk)
+            if len(seen) > n:
+                break
+        if len(seen) > n:
+            # the rotation group of a record of length n has at most n elements: the search would not close
+            st.violation("rotate", "more-reachable-states-than-rotations", dict(n=n, table_slice=[s, nsl], history=[], op=">>", k=1),
+                         "<= %d states" % n, len(seen))
+            st.caps.append("n={}: search stopped at {} states (> n)".format(n, len(seen)))
+            break
         frontier = nxt
     st.states += len(seen)
     st.goal("closure-reached")
